@@ -9,6 +9,9 @@ pub struct Net {
     pub n: usize,
     /// (src, dst, length in metres); edge id = position
     pub edges: Vec<(usize, usize, f64)>,
+    /// explicit vertex coordinates; None = the 3 x 3 lattice of `coord`
+    #[serde(default, skip_serializing_if = "Option::is_none")]
+    pub xy: Option<Vec<(f32, f32)>>,
 }
 
 /// lattice coordinates: vertex i sits at ((i % 3) * 0.01, (i / 3) * 0.01) degrees
@@ -17,13 +20,19 @@ pub fn coord(i: usize) -> (f32, f32) {
 }
 
 impl Net {
+    pub fn coord(&self, i: usize) -> (f32, f32) {
+        match &self.xy {
+            Some(v) => v[i],
+            None => coord(i),
+        }
+    }
     pub fn m(&self) -> usize {
         self.edges.len()
     }
     pub fn vertices(&self) -> Vec<Vertex> {
         (0..self.n)
             .map(|i| {
-                let (x, y) = coord(i);
+                let (x, y) = self.coord(i);
                 Vertex::new(i, x, y)
             })
             .collect()
@@ -100,6 +109,33 @@ pub enum LenMode {
     PowersOfTwo,
     /// ceil(haversine * factor[l]) with a floor of 1 m: admissible heuristics for A*
     Metric,
+    /// vertices on the equator with very uneven spacing (`line_xy`), lengths ceil(haversine * LINE_FACTORS[l]) + 1:
+    /// long edges that make a lot of progress next to short last hops, where a heuristic evaluated at the wrong
+    /// end of an edge changes the answer
+    LineMetric,
+}
+
+pub const LINE_FACTORS: [f64; 3] = [1.0, 1.1, 3.0];
+
+/// vertex 0 at 0, vertex n-1 at 0.090 degrees, the others close to the far end or in the middle
+pub fn line_xy(n: usize) -> Vec<(f32, f32)> {
+    let inner = [0.081f32, 0.088, 0.05, 0.02, 0.07];
+    (0..n)
+        .map(|i| {
+            if i == 0 {
+                (0.0, 0.0)
+            } else if i == n - 1 {
+                (0.090, 0.0)
+            } else {
+                (inner[(i - 1) % inner.len()], 0.0)
+            }
+        })
+        .collect()
+}
+
+fn hav_xy(a: (f32, f32), b: (f32, f32)) -> f64 {
+    use routee_compass_core::model::unit::as_f64::AsF64;
+    routee_compass_core::util::geo::haversine::haversine_distance_meters(a.0, a.1, b.0, b.1).map(|d| d.as_f64()).unwrap_or(f64::NAN)
 }
 
 #[derive(Clone, Debug)]
@@ -134,6 +170,11 @@ impl GenSpec {
             LenMode::Metric => {
                 let h = haversine_m(pair.0, pair.1);
                 (h * METRIC_FACTORS[l]).ceil().max(1.0) + 1.0
+            }
+            LenMode::LineMetric => {
+                let xy = line_xy(self.n);
+                let h = hav_xy(xy[pair.0], xy[pair.1]);
+                (h * LINE_FACTORS[l]).ceil().max(1.0) + 1.0
             }
         }
     }
@@ -201,7 +242,7 @@ pub fn for_each_in_shard(
             .enumerate()
             .map(|(i, (p, l))| (pairs[*p].0, pairs[*p].1, spec.len_of(i, pairs[*p], *l)))
             .collect();
-        f(&Net { n: spec.n, edges });
+        f(&Net { n: spec.n, edges, xy: if spec.mode == LenMode::LineMetric { Some(line_xy(spec.n)) } else { None } });
     }
     fn rec(
         spec: &GenSpec,
